@@ -17,6 +17,9 @@ R6   loop progress: anti-freeze counter of Tick(); induction variables at least 
 R7   every fraction denominator built from a file field is non-zero
 R8   iterator holders are emptied where the track data they point into is dropped; the loop-stack level never drops below -1
 R9   fixed-extent indexes in loader / converter code are in range (interval engine E2)
+R10  event payload bytes: `ev.data[k]` is reached only where the event is a channel voice message whose SMF length exceeds k, where the
+     same function has just built k+1 bytes (push_back / resize / assign), or under a size test — a meta event's payload length comes
+     from the file (the internal subtypes 0xE1..0xE7 can be written into a file as raw meta events)
 """
 import collections, re
 from ..core import *
@@ -42,6 +45,7 @@ RULES = [
     Rule('C01.R7', 'fraction denominators built from file fields are non-zero', 4),
     Rule('C01.R8', 'iterator holders are emptied with the track data; loop-stack level stays >= -1', 5),
     Rule('C01.R9', 'fixed-extent indexes in loader / converter code are in range', 40),
+    Rule('C01.R10', 'every constant subscript of an event\'s data bytes is justified by the event type, by the statements that built the bytes, or by a size test', 35),
 ]
 EXPLANATION = ('Byte-budget abstract interpretation of every function that walks untrusted bytes: E1 over the structured body of the SMF event parser '
                '(cursor behind a pointer-to-pointer, (ptr,end) dialect) and E1c, a must-dataflow over the CFG, for the goto-style MUS converter and for '
@@ -93,6 +97,7 @@ def analyse(facts, tier):
     obls += r5(facts)
     obls += r6(facts)
     obls += r8(facts)
+    obls += r10(facts)
     res = e2prog.analyse_program(facts)
     obls += r7(facts, res)
     obls += r9(facts, res)
@@ -1091,8 +1096,80 @@ def clamp_follows(fn, b, j, st):
 
 
 # ------------------------------------------------------------------------------------------------ R9 E2 indexes
-def r9(facts, res):
+def r9_param_tables(facts, res):
+    """pointer parameters that receive a fixed-extent table from every caller (sortEvents' noteStates[16*255]): the extent is taken from the
+    callers' arrays and every subscript of the parameter is evaluated by the interval engine"""
     out = []
+    for fn in facts.all_fns():
+        if fn.relfile() not in FILES or fn.tree is None:
+            continue
+        for pi, p in enumerate(fn.params):
+            if not p['t'].get('p'):
+                continue
+            subs = [x for b, ex, loc in fn.cfg.exprs() for x in walk(ex) if x.get('k') == 'ArraySubscriptExpr' and strip(x['b']).get('k') == 'DeclRefExpr' and strip(x['b']).get('id') == p['id']
+                    and const_of(x['i']) is None]
+            if not subs:
+                continue
+            exts = []
+            for caller in facts.all_fns():
+                if caller.tree is None:
+                    continue
+                for b, ex, loc in caller.cfg.exprs():
+                    for c in calls_in(ex):
+                        if callee_name(c) == fn.name and pi < len(c.get('a', [])):
+                            a = strip(c['a'][pi])
+                            t = a.get('t') or {}
+                            if 'arr' in t:
+                                exts.append(t['arr'])
+                            elif const_of(a) == 0 or a.get('k') in ('GNUNullExpr', 'CXXNullPtrLiteralExpr'):
+                                pass
+                            else:
+                                exts.append(None)
+            if not exts or any(e is None for e in exts):
+                continue
+            ext = min(exts)
+            eng = Engine2(facts, res['field_ranges'], e2prog.MIN_SIZES, res['param_ranges'])
+            vals = {}
+            sdf = single_defs(fn.d)
+            cont = {}       # local container name -> join of the values inserted into it
+            iters = {}      # iterator local -> container it walks
+            for b0, j0, st0 in fn.cfg.stmts():
+                if st0['s'].get('k') == 'DeclStmt':
+                    for v0 in st0['s']['decls']:
+                        if v0.get('init') is not None:
+                            for y in walk(v0['init']):
+                                if short(callee_name(y)) == 'begin' and y.get('obj') is not None and strip(y['obj']).get('k') == 'DeclRefExpr':
+                                    iters[v0['id']] = short(strip(y['obj'])['n'])
+            def hook(eng, e, st, vals=vals, pid=p['id'], cont=cont, iters=iters):
+                for x in walk(e):
+                    if short(callee_name(x)) in ('insert', 'push_back') and x.get('obj') is not None and strip(x['obj']).get('k') == 'DeclRefExpr' and len(x.get('a', [])) == 1:
+                        cn_ = short(strip(x['obj'])['n'])
+                        v_ = eng.ev(x['a'][0], st)
+                        cont[cn_] = v_ if cn_ not in cont else (None if cont[cn_] is None or v_ is None else cont[cn_].join(v_))
+                for x in walk(e):
+                    if x.get('k') == 'ArraySubscriptExpr' and strip(x['b']).get('k') == 'DeclRefExpr' and strip(x['b']).get('id') == pid:
+                        v = eng.ev(x['i'], st)
+                        # `*it` of an iterator over a local container: the join of everything inserted into that container
+                        di = strip(x['i'])
+                        inner = strip(di.get('e')) if di.get('k') == 'UnaryOperator' and di.get('op') == '*' else (strip(di['a'][0]) if short(di.get('callee', '')) == 'operator*' and di.get('a') else None)
+                        if inner is not None and inner.get('k') == 'DeclRefExpr' and inner.get('id') in iters and cont.get(iters[inner['id']]) is not None:
+                            v = cont[iters[inner['id']]]
+                        k = (x.get('ln'), show(x))
+                        vals[k] = v if k not in vals or vals[k] is None or v is None else vals[k].join(v)
+                        if v is None:
+                            vals[k] = None
+            eng.value_hooks.append(hook)
+            eng.run(fn, record=True)
+            for (ln, txt), v in sorted(vals.items(), key=lambda kv: kv[0][0] or 0):
+                ok = v is not None and not v.f and v.lo >= 0 and v.hi <= ext - 1
+                out.append(Obl('C01.R9', fn.name, txt[:60], '%s:%s' % (fn.file, ln), 'discharged' if ok else 'finding',
+                               why='index %s within the %d entries every caller provides' % (v, ext) if ok else
+                               'index %s can leave the %d-entry table the callers pass for `%s`' % (v, ext, p['n'])))
+    return out
+
+
+def r9(facts, res):
+    out = r9_param_tables(facts, res)
     for o in c03.index_obligations(facts, res, 'C01.R9', 'C01.R9', lambda f: f in FILES):
         if o.status == 'finding':
             # index is the byte under a parse cursor: use the bound E1c established for that byte
@@ -1105,4 +1182,116 @@ def r9(facts, res):
                 if b is not None and ext and isinstance(ext[0].ext, int) and b <= ext[0].ext - 1:
                     o.status, o.why = 'discharged', 'the byte under the cursor was compared: *cursor <= %d on every path since the cursor last moved (E1c)' % b
         out.append(o)
+    return out
+
+
+
+# ------------------------------------------------------------------------------------------------ R10 event payload subscripts
+VOICE_LEN = {0x8: 2, 0x9: 2, 0xA: 2, 0xB: 2, 0xC: 1, 0xD: 1, 0xE: 2}
+
+
+def _evkey(e):
+    """text of the event object an expression `X.data` / `X.type` belongs to, with `(*j)` and `j->` unified"""
+    t = show(strip(e)).replace('(*', '').replace(')', '').replace('->', '.')
+    return t
+
+
+def r10(facts):
+    out = []
+    n = 0
+    for fn in facts.all_fns():
+        if fn.relfile() not in ('src/midi_sequencer_impl.hpp', 'src/midi_sequencer.hpp', 'src/opnmidi_sequencer.cpp') or fn.tree is None:
+            continue
+        stmts = list(fn.cfg.stmts())
+        # buckets: local containers that only ever receive events of given types (push_back under a type guard)
+        bucket_types = {}
+        for b, j, st in stmts:
+            for x in calls_in(st['s']):
+                if short(callee_name(x)) == 'push_back' and x.get('obj') is not None and strip(x['obj']).get('k') == 'DeclRefExpr' and x.get('a'):
+                    bname = short(strip(x['obj'])['n'])
+                    src = _evkey(x['a'][0])
+                    tys = set()
+                    for f in guard_facts(fn, b, st):
+                        if f[0] == 'cmp' and f[1] == '==' and strip(f[2]).get('k') == 'MemberExpr' and short(strip(f[2])['n']) == 'type' and _evkey(strip(f[2])['b']) == src:
+                            c = const_of(f[3])
+                            if c is not None:
+                                tys.add(c)
+                    bucket_types.setdefault(bname, []).append(tys)
+        for b, j, st in stmts:
+            for x in walk(st['s']):
+                if not (short(x.get('callee', '')) == 'operator[]' and x.get('a') and strip(x['a'][0]).get('k') == 'MemberExpr' and short(strip(x['a'][0])['n']) == 'data'
+                        and 'MidiEvent' in strip(x['a'][0])['n']):
+                    continue
+                n += 1
+                k = const_of(x['a'][1])
+                base = strip(strip(x['a'][0])['b'])
+                key = _evkey(base)
+                construct = '%s.data[%s]' % (key, show(x['a'][1]))
+                gf = guard_facts(fn, b, st, sd=single_defs(fn.d)) + guard_facts(fn, b, st)
+                why = None
+                # (c') inside `X.data.empty() ? default : X.data[k]`
+                for y in walk(st['s']):
+                    if y.get('k') == 'ConditionalOperator' and k == 0:
+                        cnd = strip(y.get('cnd'))
+                        neg = False
+                        while cnd is not None and cnd.get('k') == 'UnaryOperator' and cnd.get('op') == '!':
+                            cnd, neg = strip(cnd['e']), not neg
+                        if cnd is not None and short(callee_name(cnd)) == 'empty' and cnd.get('obj') is not None and _evkey(strip(cnd['obj']).get('b') or {}) == key:
+                            arm = y.get('l') if neg else y.get('r')
+                            if any(z is x for z in walk(arm)):
+                                why = 'guarded by the emptiness test of the conditional expression'
+                if k is None:
+                    out.append(Obl('C01.R10', fn.name, construct, st['loc'], 'finding', why='variable subscript of event payload bytes without a size test'))
+                    continue
+                # (a) event type in force
+                for f in gf:
+                    if f[0] == 'cmp' and f[1] == '==' and strip(f[2]).get('k') == 'MemberExpr' and short(strip(f[2])['n']) == 'type' and _evkey(strip(f[2])['b']) == key:
+                        c = const_of(f[3])
+                        if c in VOICE_LEN and VOICE_LEN[c] > k:
+                            why = 'channel voice message %#x: %d data bytes' % (c, VOICE_LEN[c])
+                    if f[0] == 'case' and strip(f[1]).get('k') == 'MemberExpr' and short(strip(f[1])['n']) == 'type' and _evkey(strip(f[1])['b']) == key:
+                        if f[2] and all(c in VOICE_LEN and VOICE_LEN[c] > k for c in f[2]):
+                            why = 'case of channel voice message(s) %s' % ', '.join('%#x' % c for c in f[2])
+                # (c) size test
+                if why is None:
+                    for f in gf:
+                        txt = fact_str(f)
+                        if ('%s.data.size()' % key) in txt.replace('->', '.').replace('(*', '').replace(')', '') and f[0] == 'cmp':
+                            nrm = cmp_norm(f)
+                            if nrm and ((nrm[0] in ('>',) and nrm[2] >= k) or (nrm[0] == '>=' and nrm[2] >= k + 1) or (nrm[0] == '==' and nrm[2] >= k + 1)):
+                                why = 'size test ' + txt[:50]
+                        if f[0] == 'truth' and not f[2] and short(callee_name(strip(f[1]))) == 'empty' and k == 0 and key in _evkey(strip(f[1]).get('obj') or {}):
+                            why = 'non-empty test'
+                # (b) bytes built by this function on every path to the use
+                if why is None:
+                    built = 0
+                    for b2, j2, st2 in stmts:
+                        dom = (b2 == b and j2 < j) or (b2 != b and fn.cfg.block_dominates(b2, b))
+                        if not dom:
+                            continue
+                        for y in calls_in(st2['s']):
+                            o = y.get('obj')
+                            if o is None or strip(o).get('k') != 'MemberExpr' or short(strip(o)['n']) != 'data' or _evkey(strip(o)['b']) != key:
+                                continue
+                            m = short(callee_name(y))
+                            if m == 'push_back':
+                                built += 1
+                            elif m in ('resize', 'assign') and y.get('a') and const_of(y['a'][0]) is not None:
+                                built = max(built, const_of(y['a'][0]))
+                    if built > k:
+                        why = '%d byte(s) built by this function on every path to the use' % built
+                # (d) element of a bucket that only receives events of sufficient types
+                if why is None and base.get('k') in ('UnaryOperator', 'DeclRefExpr', 'CXXOperatorCallExpr'):
+                    itname = key.split('.')[0]
+                    for bname, tlist in bucket_types.items():
+                        # the iterator / element is taken from this bucket
+                        taken = any((v.get('init') is not None and bname in show(v['init'])) for b3, j3, st3 in stmts if st3['s'].get('k') == 'DeclStmt' for v in st3['s']['decls'] if v['n'] == itname)
+                        if not taken:
+                            taken = any(st3['s'].get('k') == 'DeclStmt' and any(v['n'] == itname for v in st3['s']['decls']) and bname in show(st3['s']) for b3, j3, st3 in stmts)
+                        if taken and tlist and all(tys and all(c in VOICE_LEN and VOICE_LEN[c] > k for c in tys) for tys in tlist):
+                            why = 'element of `%s`, which only receives events of type %s' % (bname, sorted({'%#x' % c for tys in tlist for c in tys}))
+                out.append(Obl('C01.R10', fn.name, construct, st['loc'], 'discharged' if why else 'finding',
+                               why=why or 'the payload of this event comes from the file (a meta event or an internal subtype written as a raw meta event): nothing guarantees that byte %d exists' % k))
+    if n < 35:
+        raise build.AnalysisBroken('C01.R10: only %d event payload subscripts found' % n)
     return out
